@@ -34,7 +34,7 @@ def replay_case(prop, case):
             print("machinery error", run.machinery_errors)
             return 2
         if best[0] < len(t["ev"]) + 1:
-            print(f"VIOLATION property={prop} replay=(reproduced) trace rejected by TraceBuf at event {best[0]}: "
+            print(f"VIOLATION property={prop} replay={__import__('os').environ.get('VERIF_REPLAY_PATH', '-')} trace rejected by TraceBuf at event {best[0]}: "
                   f"{json.dumps(t['ev'][best[0] - 1])[:600]}")
             return 1
         print("trace accepted: not reproduced on this tree")
@@ -52,7 +52,7 @@ def replay_case(prop, case):
 
 def _verdict(prop, problems):
     if problems:
-        print(f"VIOLATION property={prop} replay=(reproduced) {json.dumps(problems[0], default=repr)[:800]}")
+        print(f"VIOLATION property={prop} replay={__import__('os').environ.get('VERIF_REPLAY_PATH', '-')} {json.dumps(problems[0], default=repr)[:800]}")
         return 1
     print("not reproduced on this tree")
     return 0
